@@ -55,16 +55,18 @@ FormsAgree(e) ==
   LET ok == {i \in DOMAIN e.runs : "exception" \notin DOMAIN e.runs[i]} IN
   \A i, j \in ok : GotBag(e.runs[i].out) = GotBag(e.runs[j].out)
 
+(* no simplex has more than n vertices: a dim_max beyond n (the Python binding passes 2^31 - 1) asks for the same diagram *)
+DMax(e) == Lo(e.dmax, e.n)
 Fails(e) ==
   IF e.op # "ripser" THEN {"unknown_op"}
   ELSE IF ~WellTyped(e) THEN {"input"}
   ELSE LET G   == GraphOf(e)
-           exp == IF e.oracle THEN RipsDiagramFast(e.n, G, e.dmax, e.p) ELSE {}
+           exp == IF e.oracle THEN RipsDiagramFast(e.n, G, DMax(e), e.p) ELSE {}
        IN  UNION {{r.form \o ":" \o f : f \in RunFails(e, r, exp, e.oracle)} : r \in {e.runs[i] : i \in DOMAIN e.runs}}
            \cup Unless(Len(e.runs) > 0, "no_run")
            \cup Unless(e.oracle \/ FormsAgree(e), "forms_disagree")
-           \cup Unless(~e.oracle \/ e.n > 16 \/ RipsDiagramAlg(e.n, G, e.dmax, e.p) = exp, "spec_fast_vs_alg")
-           \cup Unless(~e.oracle \/ e.nsimp > DefMaxSimplices \/ e.n > 9 \/ e.p > 46341 \/ RipsDiagramDef(e.n, G, e.dmax, e.p) = exp, "spec_def_vs_alg")
+           \cup Unless(~e.oracle \/ e.n > 16 \/ RipsDiagramAlg(e.n, G, DMax(e), e.p) = exp, "spec_fast_vs_alg")
+           \cup Unless(~e.oracle \/ e.nsimp > DefMaxSimplices \/ e.n > 9 \/ e.p > 46341 \/ RipsDiagramDef(e.n, G, DMax(e), e.p) = exp, "spec_def_vs_alg")
 
 Judge(k) == LET f == Fails(Tr[k]) IN
   f = {} \/ PrintT(<<"REJECT", ToJson([line |-> k, fails |-> f])>>)
